@@ -12,7 +12,7 @@ RULE = 'random graphs over add/acc/pass/gate (explicit Valid/Unchecked selectors
 TRUSTED = ['subscription plumbing of target_link_ops.cpp is not modelled: covered by correspondence only'] + list(act.TRUSTED)
 ASSUMPTIONS = ['all ports are TS[int]'] + list(act.ASSUMPTIONS)
 TECHNIQUE = "Lean 4 proof about the engine model's activation/readiness gates + differential correspondence + dataflow reference monitor"
-LEVEL_TEXT = ('Kernel-checked: in every completed cycle a node is evaluated IFF its slot was due when the cycle began (own wake-up) or an earlier-evaluated node scheduled it for this cycle (notification), for arbitrary node behaviours under the caller discipline; for every flat dataflow with arbitrary node functions and any topological rank (activation_exact): a node is evaluated in a cycle IFF it was due or one of its ACTIVE producers was evaluated in this cycle and wrote - passive producers and silent evaluations never activate it - and the writers are exactly the fired nodes whose code ticked; WITH THE LATEST VALUES (runs_with_latest_values): a node that runs computes its user function on the states its producers, active and passive, end this cycle with (every producer's latest write, this cycle's included) and on its own previous state, a node that does not run keeps its state; on the engine model: user code of a node runs only if the node is started and every input not marked Unchecked is valid; an output write schedules exactly the started nodes subscribed to it (passive inputs never subscribe). The model is compared trace-for-trace with the runtime and every implementation trace is checked against a dataflow reading that recomputes, per cycle, which nodes must run and with which input values and flags.'
+LEVEL_TEXT = ('Kernel-checked: in every completed cycle a node is evaluated IFF its slot was due when the cycle began (own wake-up) or an earlier-evaluated node scheduled it for this cycle (notification), for arbitrary node behaviours under the caller discipline; for every flat dataflow with arbitrary node functions and any topological rank (activation_exact): a node is evaluated in a cycle IFF it was due or one of its ACTIVE producers was evaluated in this cycle and wrote - passive producers and silent evaluations never activate it - and the writers are exactly the fired nodes whose code ticked; WITH THE LATEST VALUES (runs_with_latest_values): a node that runs computes its user function on the states its producers, active and passive, end this cycle with (the latest write of every producer, the one of this cycle included) and on its own previous state, a node that does not run keeps its state; on the engine model: user code of a node runs only if the node is started and every input not marked Unchecked is valid; an output write schedules exactly the started nodes subscribed to it (passive inputs never subscribe). The model is compared trace-for-trace with the runtime and every implementation trace is checked against a dataflow reading that recomputes, per cycle, which nodes must run and with which input values and flags.'
               ' Activity of structured inputs (Props/C03Activity.lean, stream activity): for every input tree (peered or assembled TSL/TSB, nested lists), every sequence of make_active()/make_passive() commands on inputs and their children executed inside user code, and every tick history, the user code runs in a cycle iff a currently active leaf subscription ticked and the validity gate holds (runs_iff_active_tick_and_ready); a command touches exactly its own subtree, parent and child commands do not disturb each other, active/passive are mutually inverse and idempotent.'
               ' Through nested graphs (Props/NestFlowCor.lean): in a cycle of a chain of nested flat dataflows a node of any level runs iff it was due or one of its ACTIVE producers - across any number of graph boundaries - ran and wrote in this cycle (nested_activation_exact); writers are exactly the fired nodes whose code ticked; a node that does not run keeps its state and its slot.')
 LEVEL_NOTE = "Trusted: Lean kernel; engine model tied by correspondence; Python monitor. The full 'runs_iff' over arbitrary programs is carried by the monitor; the theorems cover the gates."
